@@ -246,7 +246,109 @@ pub fn judge_c17(sys: &SimSys, stats: &mut Stats) -> JobOut {
     out
 }
 
+/// C18 with a constant *reporting* delay configured on one or both sides (no action or trigger delay).
+/// The replay binding does not apply here (recorded times of packet events are shifted by the
+/// integration), so the oracle is a trace-level one over machines that are pure timer gadgets with a
+/// constant duration d and no Cancel: after a reported TimerBegin at t the expiry is t + d (or the later
+/// running expiry without replace); TimerEnd comes exactly once, exactly at that expiry, never without a
+/// running timer, and simulated time does not move past a pending expiry. TimerBegin / TimerEnd are
+/// recorded at the instant they are handed to the framework.
+pub fn judge_c18_integ(sys: &SimSys, stats: &mut Stats) -> JobOut {
+    use maybenot::action::Action;
+    use maybenot::dist::DistType;
+    let mut out = JobOut::default();
+    let Some(r) = run_or_panic(sys, stats) else { return out };
+    out.events = r.evs.len() as u64;
+    out.out_hash = hash_evs(&r.evs);
+    let tmax = r.evs.iter().map(|e| e.t).max().unwrap_or(0);
+    for client in [true, false] {
+        let ms = if client { &sys.client } else { &sys.server };
+        for (mi, m) in ms.iter().enumerate() {
+            // pure timer gadget: every action is the same UpdateTimer with a constant duration
+            let mut spec: Option<(bool, u64)> = None;
+            let mut pure = true;
+            for st in &m.states {
+                match st.action {
+                    None => {}
+                    Some(Action::UpdateTimer { replace, duration, .. }) => match duration.dist {
+                        DistType::Uniform { low, high } if low == high && duration.start == 0.0 && duration.max == 0.0 => {
+                            let d = (low.round() as u64) * 1000;
+                            if spec.is_some() && spec != Some((replace, d)) {
+                                pure = false;
+                            }
+                            spec = Some((replace, d));
+                        }
+                        _ => pure = false,
+                    },
+                    Some(_) => pure = false,
+                }
+            }
+            let Some((replace, d)) = spec else { continue };
+            if !pure {
+                continue;
+            }
+            let side = if client { "client" } else { "server" };
+            let mut running: Option<u64> = None;
+            let mut viol: Option<Viol> = None;
+            for (k, e) in r.evs.iter().enumerate() {
+                if e.client != client {
+                    continue;
+                }
+                match &e.event {
+                    TriggerEvent::TimerBegin { machine } if machine.into_raw() == mi => {
+                        out.nontrivial = true;
+                        stats.bump("timer_begins");
+                        if let Some(x) = running {
+                            if x < e.t {
+                                viol = Some(Viol { sig: "C18:integration:missed-TimerEnd".into(), msg: format!("[{side}] machine {mi}: timer expiring at {x}ns was never reported ended; a new TimerBegin at {}ns", e.t), at: k });
+                                break;
+                            }
+                        }
+                        running = Some(match running {
+                            Some(x) if !replace => x.max(e.t + d),
+                            _ => e.t + d,
+                        });
+                    }
+                    TriggerEvent::TimerEnd { machine } if machine.into_raw() == mi => {
+                        stats.bump("timer_ends");
+                        match running {
+                            Some(x) if x == e.t => running = None,
+                            Some(x) => {
+                                viol = Some(Viol { sig: "C18:integration:TimerEnd-not-at-expiry".into(), msg: format!("[{side}] machine {mi}: TimerEnd reported at {}ns, the timer set by the last TimerBegin (duration {d}ns, replace {replace}) expires at {x}ns", e.t), at: k });
+                                break;
+                            }
+                            None => {
+                                viol = Some(Viol { sig: "C18:integration:TimerEnd-without-timer".into(), msg: format!("[{side}] machine {mi}: TimerEnd reported at {}ns but no timer is running", e.t), at: k });
+                                break;
+                            }
+                        }
+                    }
+                    _ => {}
+                }
+            }
+            if viol.is_none() {
+                if let Some(x) = running {
+                    if x < tmax {
+                        viol = Some(Viol { sig: "C18:integration:missed-TimerEnd".into(), msg: format!("[{side}] machine {mi}: timer expiring at {x}ns was never reported ended although the run went on to {tmax}ns"), at: r.evs.len() });
+                    }
+                }
+            }
+            if let Some(v) = viol {
+                out.viols.push(v);
+                return out;
+            }
+        }
+    }
+    if out.nontrivial {
+        out.sample = Some(sample_of(sys, &r.evs));
+    }
+    out
+}
+
 pub fn judge_c18(sys: &SimSys, stats: &mut Stats) -> JobOut {
+    if sys.report_delay_us != (0, 0) {
+        return judge_c18_integ(sys, stats);
+    }
     let mut out = JobOut::default();
     let Some(r) = run_or_panic(sys, stats) else { return out };
     out.events = r.evs.len() as u64;
@@ -418,7 +520,13 @@ pub fn judge_c14(sys: &SimSys, api: u8, _stats: &mut Stats) -> JobOut {
 pub fn judge_c19(sys: &SimSys, stats: &mut Stats) -> JobOut {
     let mut out = JobOut::default();
     let pv = |kind: &str, msg: String| Viol { sig: format!("C19:{kind}"), msg, at: 0 };
-    let sq = sys.queue();
+    let sq = match std::panic::catch_unwind(std::panic::AssertUnwindSafe(|| sys.queue())) {
+        Ok(q) => q,
+        Err(_) => {
+            out.viols.push(pv("panic:parse_trace", format!("parse_trace panicked: {}", crate::explore::last_panic())));
+            return out;
+        }
+    };
     let a = match run_on(sys, &sq) {
         Ok(r) => r,
         Err(e) => {
@@ -517,6 +625,38 @@ fn bounds(sp: &Space, jobs: usize, delays: &[u64]) -> Value {
 }
 const ASSUME: &str = "two-state deterministic gadget machines (S-library), traces of a few packets with gaps {0,1,3,7}us, delays {0,2,5}us, no integration delays; the per-side replay through a fresh Framework with the same seed recovers the actions the simulator acted on (C05 determinism)";
 
+/// One side sends n packets 100 ns apart; a machine on that side blocks outgoing traffic on the first one
+/// for longer than the trace lasts, so n - 1 packets wait in the blocked queue together.
+pub fn c15_mass_systems(q: bool) -> Vec<SimSys> {
+    use maybenot::action::Action;
+    use maybenot::event::Event;
+    let mut v = vec![];
+    let ns: &[usize] = if q { &[1026, 1500] } else { &[1024, 1025, 1026, 1500, 2500, 5000] };
+    for &n in ns {
+        for client in [true, false] {
+            for (bypass, replace) in [(false, false), (true, false)] {
+                for delay in [0u64, 2 * US] {
+                    let trace: Vec<Pkt> = (0..n as u64).map(|i| (i * 100 + if client { 0 } else { delay }, client)).collect();
+                    let mut s = SimSys::new(trace, delay);
+                    let m = crate::sim::gadget(Event::NormalSent, Action::BlockOutgoing { bypass, replace, timeout: crate::fam::c(0.0), duration: crate::fam::c(1_000_000.0), limit: None }, None, None);
+                    let name = format!("blk(to0,dur1s,by{},rp{})", bypass as u8, replace as u8);
+                    if client {
+                        s.client.push(m);
+                        s.client_names.push(name);
+                    } else {
+                        s.server.push(m);
+                        s.server_names.push(name);
+                    }
+                    s.max_iter = 0;
+                    s.cont = false;
+                    v.push(s);
+                }
+            }
+        }
+    }
+    v
+}
+
 pub fn worker_c15(ctx: &WorkerCtx) -> WorkerOut {
     let q = ctx.quick();
     let sp = space(q, if q { 3 } else { 4 });
@@ -528,7 +668,7 @@ pub fn worker_c15(ctx: &WorkerCtx) -> WorkerOut {
     let build = |i: usize| -> Option<SimSys> {
         if i < n {
             let j = pr.job(i);
-            if q && sp.traces[j.trace as usize].len() >= 3 && i % 3 != 0 {
+            if q && sp.traces[j.trace as usize].len() >= 3 && i % 4 != 0 {
                 return None;
             }
             let mut j = j;
@@ -550,8 +690,13 @@ pub fn worker_c15(ctx: &WorkerCtx) -> WorkerOut {
             Some(sp.build(&j))
         }
     };
-    let total = n + 6 * (n / 41);
-    let b = bounds(&sp, total, &delays);
+    let total0 = n + 6 * (n / 41);
+    // many packets held back at once by one long block (the blocked queue grows past a thousand entries)
+    let mass = c15_mass_systems(q);
+    let build = |i: usize| -> Option<SimSys> { if i >= total0 { Some(mass[i - total0].clone()) } else { build(i) } };
+    let total = total0 + mass.len();
+    let mut b = bounds(&sp, total, &delays);
+    b["systems_with_over_a_thousand_packets_blocked_at_once"] = json!(mass.len());
     let res = run_jobs("C15", total, &build, &judge_c15, ctx);
     finish("C15", res, "one job = one closed system (trace x delay x machine sets x fractions x continue flag), run on the real sim_advanced; oracle: time order, exact sent/received matching per side and kind with the network delay, normal packet conservation. distinct_nontrivial = distinct output traces containing padding or blocking", b, 1000, ctx, vec![ASSUME.into()])
 }
@@ -616,19 +761,63 @@ pub fn worker_c18(ctx: &WorkerCtx) -> WorkerOut {
     let q = ctx.quick();
     let sp = space(q, 3);
     let delays = [0, 2 * US, 5 * US];
-    let sets = machine_sets(&sp.lib, &|g| g.kind == 't' || g.name.starts_with("cancel") && g.name.contains("own1"), &|g| matches!(g.kind, 't' | 'c') || g.kind == 'p' && g.name.contains("to1"), q);
+    let mut sets = machine_sets(&sp.lib, &|g| g.kind == 't' || g.name.starts_with("cancel") && g.name.contains("own1"), &|g| matches!(g.kind, 't' | 'c') || g.kind == 'p' && g.name.contains("to1"), q);
+    // a timer expiring while outgoing traffic is blocked (the blocking expiry competes with the timer in pick_next),
+    // blocker on the same side in both machine orders, and on the other side
+    {
+        let timers: Vec<u16> = (0..sp.lib.len() as u16).filter(|i| sp.lib[*i as usize].kind == 't').collect();
+        let blks: Vec<u16> = (0..sp.lib.len() as u16).filter(|i| { let g = &sp.lib[*i as usize]; g.kind == 'b' && g.name.starts_with("blk(to0") && !g.zero_dur && (g.name.contains("dur2") || g.name.contains("dur5")) && g.name.ends_with("None)") }).collect();
+        for (k, t) in timers.iter().enumerate() {
+            for (l, b) in blks.iter().enumerate() {
+                if q && (k + l) % 2 != 0 {
+                    continue;
+                }
+                sets.push((vec![*t, *b], vec![]));
+                sets.push((vec![*b, *t], vec![]));
+                sets.push((vec![], vec![*t, *b]));
+                sets.push((vec![*t], vec![*b]));
+            }
+        }
+    }
     let pr = product(&sp, sets, &delays, &[0], &[true], &[0]);
     let n = pr.len();
+    // timer gadgets under a constant reporting delay (integration) on the client, the server, or both
+    let pure: Vec<u16> = (0..sp.lib.len() as u16).filter(|i| sp.lib[*i as usize].name.starts_with("tmr(")).collect();
+    let rds: [(u64, u64); 4] = [(3, 0), (0, 3), (3, 1), (1000, 1000)];
+    let mut integ: Vec<(Job, (u64, u64))> = vec![];
+    for (k, t) in pure.iter().enumerate() {
+        let other = pure[(k * 7 + 3) % pure.len()];
+        for (cs, ss) in [(vec![*t], vec![]), (vec![], vec![*t]), (vec![*t, other], vec![]), (vec![*t], vec![other])] {
+            for tr in 0..sp.traces.len() as u32 {
+                if sp.traces[tr as usize].len() >= 3 && (q || (tr as usize + k) % 2 != 0) {
+                    continue;
+                }
+                for (di, d) in [0u64, 2 * US].iter().enumerate() {
+                    let rd = rds[(k + tr as usize + di) % rds.len()];
+                    integ.push((Job::new(tr, *d, cs.clone(), ss.clone()), rd));
+                }
+            }
+        }
+    }
     let build = |i: usize| -> Option<SimSys> {
+        if i >= n {
+            let (j, rd) = &integ[i - n];
+            let mut s = sp.build(j);
+            s.report_delay_us = *rd;
+            return Some(s);
+        }
         let j = pr.job(i);
         if q && sp.traces[j.trace as usize].len() >= 3 && i % 2 != 0 {
             return None;
         }
         Some(sp.build(&j))
     };
-    let b = bounds(&sp, n, &delays);
-    let res = run_jobs("C18", n, &build, &judge_c18, ctx);
-    finish("C18", res, "one job = one closed system with UpdateTimer gadgets (both replace settings, durations from 0, repeated updates at one instant, cancels of the internal timer, several machines, both sides); per-machine monitor of the timer expiry per the UpdateTimer contract vs reported TimerBegin/TimerEnd. distinct_nontrivial = distinct output traces with at least one TimerBegin", b, 1000, ctx, vec![ASSUME.into()])
+    let total = n + integ.len();
+    let mut b = bounds(&sp, total, &delays);
+    b["systems_with_a_reporting_delay_integration"] = json!(integ.len());
+    b["reporting_delays_us_client_server"] = json!(rds.iter().map(|x| vec![x.0, x.1]).collect::<Vec<_>>());
+    let res = run_jobs("C18", total, &build, &judge_c18, ctx);
+    finish("C18", res, "one job = one closed system with UpdateTimer gadgets (both replace settings, durations from 0, repeated updates at one instant, cancels of the internal timer, several machines, both sides, timers expiring while a block is active); per-machine monitor of the timer expiry per the UpdateTimer contract vs reported TimerBegin/TimerEnd. A further set of systems runs pure timer gadgets under a constant integration reporting delay, judged by a trace-level monitor (expiry = last TimerBegin + constant duration). distinct_nontrivial = distinct output traces with at least one TimerBegin", b, 1000, ctx, vec![ASSUME.into(), "integration systems: constant reporting delay only (no action or trigger delay), pure timer gadgets".into()])
 }
 
 pub fn c14_traces(maxlen: usize) -> Vec<Vec<Pkt>> {
@@ -684,6 +873,20 @@ pub fn c14_long_traces(q: bool) -> Vec<Vec<Pkt>> {
     v
 }
 
+/// The largest number of packets one direction of the trace has within any closed one-second window
+/// (at least the count of any window convention an implementation may use).
+pub fn peak_per_second(t: &[Pkt]) -> usize {
+    let mut best = 1;
+    for dir in [true, false] {
+        let ts: Vec<u64> = t.iter().filter(|p| p.1 == dir).map(|p| p.0).collect();
+        for (i, x) in ts.iter().enumerate() {
+            let c = ts[..=i].iter().filter(|y| x.abs_diff(**y) <= 1_000_000_000).count();
+            best = best.max(c);
+        }
+    }
+    best
+}
+
 pub fn worker_c14(ctx: &WorkerCtx) -> WorkerOut {
     let q = ctx.quick();
     let mut all_traces = c14_traces(if q { 4 } else { 5 });
@@ -692,6 +895,7 @@ pub fn worker_c14(ctx: &WorkerCtx) -> WorkerOut {
     let sp = Space { traces: Arc::new(all_traces), lib: Arc::new(vec![]) };
     let delays = [0u64, 1, 10_000_000];
     let mut jobs = vec![];
+    let peaks: Vec<usize> = sp.traces.iter().map(|t| peak_per_second(t)).collect();
     for t in 0..sp.traces.len() as u32 {
         for d in delays {
             for (oc, on) in [(false, false), (true, false), (false, true), (true, true)] {
@@ -718,6 +922,21 @@ pub fn worker_c14(ctx: &WorkerCtx) -> WorkerOut {
                 let mut j = Job::new(t, d, vec![], vec![]);
                 j.max_iter = 0;
                 j.style = st;
+                jobs.push(j);
+            }
+            // line endings and the optional size column: "\r\n", "time,direction,size", a terminated last line
+            for (k, st) in [4u8, 8, 12, 16, 28].iter().enumerate() {
+                let mut j = Job::new(t, d, vec![], vec![]);
+                j.max_iter = 0;
+                j.style = st | ((t as usize + k) % 4) as u8;
+                j.api = (k % 2) as u8;
+                jobs.push(j);
+            }
+            // an explicit packets-per-second limit that the trace reaches but never exceeds, and one above it
+            for extra in [0usize, 1] {
+                let mut j = Job::new(t, d, vec![], vec![]);
+                j.max_iter = 0;
+                j.pps = Some(peaks[t as usize] + extra);
                 jobs.push(j);
             }
         }
